@@ -1,7 +1,7 @@
 #!/venv/bin/python
 """tools/test_py2lean2m.py — self-test of the Translator2M / Rules2M additions of harness/py2lean2.py (hoisting of monadic
 operands, short-circuit `and` / `or` with operands that may raise, lambda + reduce, `is None`, float constants, in-place
-statements in the monad, scope-aware `end`): translates sample functions, type-checks the Lean text and compares `#eval`
+statements in the monad, scope-aware `end`; Translator2N: inlining of same-module helper functions, pure and raising): translates sample functions, type-checks the Lean text and compares `#eval`
 of the translation with Python (exceptions included) on a grid of inputs.  Exit 0 iff everything agrees."""
 import os, subprocess, sys, tempfile, shutil
 from functools import reduce
@@ -54,6 +54,28 @@ def h_inplace(self, k):
     if k > 3:
         return
     self.bump(k - 2)
+
+
+def clamp_small(x, lo=0):
+    if x < lo:
+        return lo
+    return x
+
+
+def h_helper_pure(xs, k):
+    y = clamp_small(k) + clamp_small(k - 3, lo=1)
+    return y + xs[0]
+
+
+def h_helper_raising(xs, k):
+    return checked_half(xs[k]) + 1
+
+
+def checked_half(x):
+    if x % 2 != 0:
+        raise ValueError("odd")
+    y = x // 2
+    return y
 
 
 def half(x):
@@ -132,6 +154,27 @@ def main():
         [("%s (%d)" % (lean_list(xs), k), (lambda xs=xs, k=k: h_reduce(xs, k))) for xs in LISTS for k in KS])
     add(h_inplace, "(self : Int) (k : Int) : Except E Int", R_INPLACE, {"self": "self", "k": "k"},
         [("(%d) (%d)" % (v, k), (lambda v=v, k=k: (lambda b: (h_inplace(b, k), b.v)[1])(Box(v)))) for v in (0, 5) for k in KS])
+    RN = P.Rules2N(expr=[("$x[$i]", "(item {x} {i})", "bind"), ("$a % $b", "({a} % {b})"), ("$a // 2", "({a} / 2)")],
+                   ret="Except.ok ({e})", raise_="Except.error E.value", unit="(Except.ok ({e}))")
+
+    def addN(fn, sig, args, calls):
+        tr = P.Translator2N(RN)
+        body = tr.function(fn, args, ind=1)
+        assert tr.inlined, "no helper was inlined in %s" % fn.__name__
+        text.append("def %s %s :=\n%s\n" % (fn.__name__, sig, body))
+        for lean_args, thunk in calls:
+            try:
+                want = "ok " + str(thunk())
+            except IndexError:
+                want = "IndexError"
+            except ValueError:
+                want = "ValueError"
+            expect.append((fn.__name__, lean_args, want))
+            text.append("#eval show1 (%s %s)" % (fn.__name__, lean_args))
+    addN(h_helper_pure, "(xs : List Int) (k : Int) : Except E Int", {"xs": "xs", "k": "k"},
+         [("%s (%d)" % (lean_list(xs), k), (lambda xs=xs, k=k: h_helper_pure(xs, k))) for xs in LISTS for k in KS])
+    addN(h_helper_raising, "(xs : List Int) (k : Int) : Except E Int", {"xs": "xs", "k": "k"},
+         [("%s (%d)" % (lean_list(xs), k), (lambda xs=xs, k=k: h_helper_raising(xs, k))) for xs in LISTS for k in KS])
     # `is None` on an Option argument (pure function; values are rationals)
     body = P.Translator2M(R_NONE).function(h_none, {"k": "k", "d": "d"}, ind=1)
     text.append("def h_none (k : Rat) (d : Option Rat) : Option Rat :=\n%s\n" % body.replace("let d0 := ((1 : Rat) / 2)", "let d0 := some ((1 : Rat) / 2)").replace("(d0 * k)", "(d0.map (· * k))").replace("(d * k)", "(d.map (· * k))"))
@@ -141,7 +184,7 @@ def main():
     r = subprocess.run(["lake", "env", "lean", f], cwd=os.path.join(ROOT, "lean"), capture_output=True, text=True)
     out = [l.strip().strip('"') for l in r.stdout.splitlines() if l.strip()]
     if r.returncode != 0:
-        print(r.stdout[-3000:], r.stderr[-2000:])
+        print(r.stdout[:3000], r.stderr[-2000:])
         print(open(f).read()[:8000])
         return 1
     bad = 0
